@@ -10,6 +10,9 @@
         open spec fn self_delimiting() -> bool { false }
         open spec fn dec_rel(b: Seq<u8>, v: &SetTimeAndDate, k: int) -> bool { true }
         open spec fn dec_total() -> bool { false }
+        /// the tag loop stops only at the end of the input, in front of something that is no tag, or in front of a tag that
+        /// is not one of this struct's non-repeatable fields
+        open spec fn dec_stop(rest: Seq<u8>) -> bool { rest.len() == 0 || (match <zvt_builder::encoding::Default as zvt_builder::encoding::Encoding<zvt_builder::Tag>>::spec_dec(rest) { None => true, Some((t, _)) => t.0 != 170u16 && t.0 != 12u16 }) }
         /// the tag loop is specified by totality and frame clauses only
         open spec fn functional() -> bool { false }
         //@ fn exp:zvt | impl zvt_builder::encoding::Encoding<SetTimeAndDate> for zvt_builder::encoding::Default | encode | mod=packets props=C03
@@ -22,6 +25,10 @@
         //@ tag tags.bookkeeping C13
                     actual_tags@ =~= seen,
                     required_tags@ =~= set![170u16, 12u16].difference(seen),
+        //@ tag tags.stop C13
+                    curr_len == bytes@.len() ==> <zvt_builder::encoding::Default as zvt_builder::encoding::Encoding<SetTimeAndDate>>::dec_stop(bytes@),
+                ensures
+                    <zvt_builder::encoding::Default as zvt_builder::encoding::Encoding<SetTimeAndDate>>::dec_stop(bytes@),
         //@ tag tags.loop.decreases C02
                 decreases bytes@.len() + (if curr_len != bytes@.len() { 1nat } else { 0nat }),
         //@ entry
@@ -81,6 +88,9 @@
         open spec fn self_delimiting() -> bool { false }
         open spec fn dec_rel(b: Seq<u8>, v: &NumAndTotal, k: int) -> bool { true }
         open spec fn dec_total() -> bool { false }
+        /// the tag loop stops only at the end of the input, in front of something that is no tag, or in front of a tag that
+        /// is not one of this struct's non-repeatable fields
+        open spec fn dec_stop(rest: Seq<u8>) -> bool { rest.len() == 0 || (match <zvt_builder::encoding::Default as zvt_builder::encoding::Encoding<zvt_builder::Tag>>::spec_dec(rest) { None => true, Some((t, _)) => true }) }
         /// the tag loop is specified by totality and frame clauses only
         open spec fn functional() -> bool { false }
         //@ fn exp:zvt | impl zvt_builder::encoding::Encoding<NumAndTotal> for zvt_builder::encoding::Default | encode | mod=packets props=C03
@@ -93,6 +103,10 @@
         //@ tag tags.bookkeeping C13
                     actual_tags@ =~= seen,
                     required_tags@ =~= Set::<u16>::empty().difference(seen),
+        //@ tag tags.stop C13
+                    curr_len == bytes@.len() ==> <zvt_builder::encoding::Default as zvt_builder::encoding::Encoding<NumAndTotal>>::dec_stop(bytes@),
+                ensures
+                    <zvt_builder::encoding::Default as zvt_builder::encoding::Encoding<NumAndTotal>>::dec_stop(bytes@),
         //@ tag tags.loop.decreases C02
                 decreases bytes@.len() + (if curr_len != bytes@.len() { 1nat } else { 0nat }),
         //@ entry
@@ -133,6 +147,9 @@
         open spec fn self_delimiting() -> bool { false }
         open spec fn dec_rel(b: Seq<u8>, v: &SingleAmounts, k: int) -> bool { true }
         open spec fn dec_total() -> bool { false }
+        /// the tag loop stops only at the end of the input, in front of something that is no tag, or in front of a tag that
+        /// is not one of this struct's non-repeatable fields
+        open spec fn dec_stop(rest: Seq<u8>) -> bool { rest.len() == 0 || (match <zvt_builder::encoding::Default as zvt_builder::encoding::Encoding<zvt_builder::Tag>>::spec_dec(rest) { None => true, Some((t, _)) => true }) }
         /// the tag loop is specified by totality and frame clauses only
         open spec fn functional() -> bool { false }
         //@ fn exp:zvt | impl zvt_builder::encoding::Encoding<SingleAmounts> for zvt_builder::encoding::Default | encode | mod=packets props=C03
@@ -145,6 +162,10 @@
         //@ tag tags.bookkeeping C13
                     actual_tags@ =~= seen,
                     required_tags@ =~= Set::<u16>::empty().difference(seen),
+        //@ tag tags.stop C13
+                    curr_len == bytes@.len() ==> <zvt_builder::encoding::Default as zvt_builder::encoding::Encoding<SingleAmounts>>::dec_stop(bytes@),
+                ensures
+                    <zvt_builder::encoding::Default as zvt_builder::encoding::Encoding<SingleAmounts>>::dec_stop(bytes@),
         //@ tag tags.loop.decreases C02
                 decreases bytes@.len() + (if curr_len != bytes@.len() { 1nat } else { 0nat }),
         //@ entry
@@ -185,6 +206,9 @@
         open spec fn self_delimiting() -> bool { false }
         open spec fn dec_rel(b: Seq<u8>, v: &StatusInformation, k: int) -> bool { true }
         open spec fn dec_total() -> bool { false }
+        /// the tag loop stops only at the end of the input, in front of something that is no tag, or in front of a tag that
+        /// is not one of this struct's non-repeatable fields
+        open spec fn dec_stop(rest: Seq<u8>) -> bool { rest.len() == 0 || (match <zvt_builder::encoding::Default as zvt_builder::encoding::Encoding<zvt_builder::Tag>>::spec_dec(rest) { None => true, Some((t, _)) => t.0 != 4u16 && t.0 != 11u16 && t.0 != 12u16 && t.0 != 13u16 && t.0 != 14u16 && t.0 != 23u16 && t.0 != 25u16 && t.0 != 34u16 && t.0 != 35u16 && t.0 != 39u16 && t.0 != 41u16 && t.0 != 42u16 && t.0 != 59u16 && t.0 != 60u16 && t.0 != 96u16 && t.0 != 135u16 && t.0 != 73u16 && t.0 != 138u16 && t.0 != 139u16 && t.0 != 140u16 && t.0 != 6u16 }) }
         /// the tag loop is specified by totality and frame clauses only
         open spec fn functional() -> bool { false }
         //@ fn exp:zvt | impl zvt_builder::encoding::Encoding<StatusInformation> for zvt_builder::encoding::Default | encode | mod=packets props=C03
@@ -197,6 +221,10 @@
         //@ tag tags.bookkeeping C13
                     actual_tags@ =~= seen,
                     required_tags@ =~= Set::<u16>::empty().difference(seen),
+        //@ tag tags.stop C13
+                    curr_len == bytes@.len() ==> <zvt_builder::encoding::Default as zvt_builder::encoding::Encoding<StatusInformation>>::dec_stop(bytes@),
+                ensures
+                    <zvt_builder::encoding::Default as zvt_builder::encoding::Encoding<StatusInformation>>::dec_stop(bytes@),
         //@ tag tags.loop.decreases C02
                 decreases bytes@.len() + (if curr_len != bytes@.len() { 1nat } else { 0nat }),
         //@ entry
@@ -370,6 +398,9 @@
         open spec fn self_delimiting() -> bool { false }
         open spec fn dec_rel(b: Seq<u8>, v: &IntermediateStatusInformation, k: int) -> bool { true }
         open spec fn dec_total() -> bool { false }
+        /// the tag loop stops only at the end of the input, in front of something that is no tag, or in front of a tag that
+        /// is not one of this struct's non-repeatable fields
+        open spec fn dec_stop(rest: Seq<u8>) -> bool { rest.len() == 0 || (match <zvt_builder::encoding::Default as zvt_builder::encoding::Encoding<zvt_builder::Tag>>::spec_dec(rest) { None => true, Some((t, _)) => true }) }
         /// the tag loop is specified by totality and frame clauses only
         open spec fn functional() -> bool { false }
         //@ fn exp:zvt | impl zvt_builder::encoding::Encoding<IntermediateStatusInformation> for zvt_builder::encoding::Default | encode | mod=packets props=C03
@@ -382,6 +413,10 @@
         //@ tag tags.bookkeeping C13
                     actual_tags@ =~= seen,
                     required_tags@ =~= Set::<u16>::empty().difference(seen),
+        //@ tag tags.stop C13
+                    curr_len == bytes@.len() ==> <zvt_builder::encoding::Default as zvt_builder::encoding::Encoding<IntermediateStatusInformation>>::dec_stop(bytes@),
+                ensures
+                    <zvt_builder::encoding::Default as zvt_builder::encoding::Encoding<IntermediateStatusInformation>>::dec_stop(bytes@),
         //@ tag tags.loop.decreases C02
                 decreases bytes@.len() + (if curr_len != bytes@.len() { 1nat } else { 0nat }),
         //@ entry
@@ -429,6 +464,9 @@
         open spec fn self_delimiting() -> bool { false }
         open spec fn dec_rel(b: Seq<u8>, v: &StatusEnquiry, k: int) -> bool { true }
         open spec fn dec_total() -> bool { false }
+        /// the tag loop stops only at the end of the input, in front of something that is no tag, or in front of a tag that
+        /// is not one of this struct's non-repeatable fields
+        open spec fn dec_stop(rest: Seq<u8>) -> bool { rest.len() == 0 || (match <zvt_builder::encoding::Default as zvt_builder::encoding::Encoding<zvt_builder::Tag>>::spec_dec(rest) { None => true, Some((t, _)) => t.0 != 3u16 && t.0 != 6u16 }) }
         /// the tag loop is specified by totality and frame clauses only
         open spec fn functional() -> bool { false }
         //@ fn exp:zvt | impl zvt_builder::encoding::Encoding<StatusEnquiry> for zvt_builder::encoding::Default | encode | mod=packets props=C03
@@ -441,6 +479,10 @@
         //@ tag tags.bookkeeping C13
                     actual_tags@ =~= seen,
                     required_tags@ =~= Set::<u16>::empty().difference(seen),
+        //@ tag tags.stop C13
+                    curr_len == bytes@.len() ==> <zvt_builder::encoding::Default as zvt_builder::encoding::Encoding<StatusEnquiry>>::dec_stop(bytes@),
+                ensures
+                    <zvt_builder::encoding::Default as zvt_builder::encoding::Encoding<StatusEnquiry>>::dec_stop(bytes@),
         //@ tag tags.loop.decreases C02
                 decreases bytes@.len() + (if curr_len != bytes@.len() { 1nat } else { 0nat }),
         //@ entry
@@ -500,6 +542,9 @@
         open spec fn self_delimiting() -> bool { false }
         open spec fn dec_rel(b: Seq<u8>, v: &Registration, k: int) -> bool { true }
         open spec fn dec_total() -> bool { false }
+        /// the tag loop stops only at the end of the input, in front of something that is no tag, or in front of a tag that
+        /// is not one of this struct's non-repeatable fields
+        open spec fn dec_stop(rest: Seq<u8>) -> bool { rest.len() == 0 || (match <zvt_builder::encoding::Default as zvt_builder::encoding::Encoding<zvt_builder::Tag>>::spec_dec(rest) { None => true, Some((t, _)) => t.0 != 6u16 }) }
         /// the tag loop is specified by totality and frame clauses only
         open spec fn functional() -> bool { false }
         //@ fn exp:zvt | impl zvt_builder::encoding::Encoding<Registration> for zvt_builder::encoding::Default | encode | mod=packets props=C03
@@ -512,6 +557,10 @@
         //@ tag tags.bookkeeping C13
                     actual_tags@ =~= seen,
                     required_tags@ =~= Set::<u16>::empty().difference(seen),
+        //@ tag tags.stop C13
+                    curr_len == bytes@.len() ==> <zvt_builder::encoding::Default as zvt_builder::encoding::Encoding<Registration>>::dec_stop(bytes@),
+                ensures
+                    <zvt_builder::encoding::Default as zvt_builder::encoding::Encoding<Registration>>::dec_stop(bytes@),
         //@ tag tags.loop.decreases C02
                 decreases bytes@.len() + (if curr_len != bytes@.len() { 1nat } else { 0nat }),
         //@ entry
@@ -565,6 +614,9 @@
         open spec fn self_delimiting() -> bool { false }
         open spec fn dec_rel(b: Seq<u8>, v: &CompletionData, k: int) -> bool { true }
         open spec fn dec_total() -> bool { false }
+        /// the tag loop stops only at the end of the input, in front of something that is no tag, or in front of a tag that
+        /// is not one of this struct's non-repeatable fields
+        open spec fn dec_stop(rest: Seq<u8>) -> bool { rest.len() == 0 || (match <zvt_builder::encoding::Default as zvt_builder::encoding::Encoding<zvt_builder::Tag>>::spec_dec(rest) { None => true, Some((t, _)) => t.0 != 39u16 && t.0 != 25u16 && t.0 != 41u16 && t.0 != 73u16 }) }
         /// the tag loop is specified by totality and frame clauses only
         open spec fn functional() -> bool { false }
         //@ fn exp:zvt | impl zvt_builder::encoding::Encoding<CompletionData> for zvt_builder::encoding::Default | encode | mod=packets props=C03
@@ -577,6 +629,10 @@
         //@ tag tags.bookkeeping C13
                     actual_tags@ =~= seen,
                     required_tags@ =~= Set::<u16>::empty().difference(seen),
+        //@ tag tags.stop C13
+                    curr_len == bytes@.len() ==> <zvt_builder::encoding::Default as zvt_builder::encoding::Encoding<CompletionData>>::dec_stop(bytes@),
+                ensures
+                    <zvt_builder::encoding::Default as zvt_builder::encoding::Encoding<CompletionData>>::dec_stop(bytes@),
         //@ tag tags.loop.decreases C02
                 decreases bytes@.len() + (if curr_len != bytes@.len() { 1nat } else { 0nat }),
         //@ entry
@@ -648,6 +704,9 @@
         open spec fn self_delimiting() -> bool { false }
         open spec fn dec_rel(b: Seq<u8>, v: &ReceiptPrintoutCompletion, k: int) -> bool { true }
         open spec fn dec_total() -> bool { false }
+        /// the tag loop stops only at the end of the input, in front of something that is no tag, or in front of a tag that
+        /// is not one of this struct's non-repeatable fields
+        open spec fn dec_stop(rest: Seq<u8>) -> bool { rest.len() == 0 || (match <zvt_builder::encoding::Default as zvt_builder::encoding::Encoding<zvt_builder::Tag>>::spec_dec(rest) { None => true, Some((t, _)) => t.0 != 6u16 }) }
         /// the tag loop is specified by totality and frame clauses only
         open spec fn functional() -> bool { false }
         //@ fn exp:zvt | impl zvt_builder::encoding::Encoding<ReceiptPrintoutCompletion> for zvt_builder::encoding::Default | encode | mod=packets props=C03
@@ -660,6 +719,10 @@
         //@ tag tags.bookkeeping C13
                     actual_tags@ =~= seen,
                     required_tags@ =~= Set::<u16>::empty().difference(seen),
+        //@ tag tags.stop C13
+                    curr_len == bytes@.len() ==> <zvt_builder::encoding::Default as zvt_builder::encoding::Encoding<ReceiptPrintoutCompletion>>::dec_stop(bytes@),
+                ensures
+                    <zvt_builder::encoding::Default as zvt_builder::encoding::Encoding<ReceiptPrintoutCompletion>>::dec_stop(bytes@),
         //@ tag tags.loop.decreases C02
                 decreases bytes@.len() + (if curr_len != bytes@.len() { 1nat } else { 0nat }),
         //@ entry
@@ -713,6 +776,9 @@
         open spec fn self_delimiting() -> bool { false }
         open spec fn dec_rel(b: Seq<u8>, v: &ResetTerminal, k: int) -> bool { true }
         open spec fn dec_total() -> bool { false }
+        /// the tag loop stops only at the end of the input, in front of something that is no tag, or in front of a tag that
+        /// is not one of this struct's non-repeatable fields
+        open spec fn dec_stop(rest: Seq<u8>) -> bool { rest.len() == 0 || (match <zvt_builder::encoding::Default as zvt_builder::encoding::Encoding<zvt_builder::Tag>>::spec_dec(rest) { None => true, Some((t, _)) => true }) }
         /// the tag loop is specified by totality and frame clauses only
         open spec fn functional() -> bool { false }
         //@ fn exp:zvt | impl zvt_builder::encoding::Encoding<ResetTerminal> for zvt_builder::encoding::Default | encode | mod=packets props=C03
@@ -725,6 +791,10 @@
         //@ tag tags.bookkeeping C13
                     actual_tags@ =~= seen,
                     required_tags@ =~= Set::<u16>::empty().difference(seen),
+        //@ tag tags.stop C13
+                    curr_len == bytes@.len() ==> <zvt_builder::encoding::Default as zvt_builder::encoding::Encoding<ResetTerminal>>::dec_stop(bytes@),
+                ensures
+                    <zvt_builder::encoding::Default as zvt_builder::encoding::Encoding<ResetTerminal>>::dec_stop(bytes@),
         //@ tag tags.loop.decreases C02
                 decreases bytes@.len() + (if curr_len != bytes@.len() { 1nat } else { 0nat }),
         //@ entry
@@ -772,6 +842,9 @@
         open spec fn self_delimiting() -> bool { false }
         open spec fn dec_rel(b: Seq<u8>, v: &PrintSystemConfiguration, k: int) -> bool { true }
         open spec fn dec_total() -> bool { false }
+        /// the tag loop stops only at the end of the input, in front of something that is no tag, or in front of a tag that
+        /// is not one of this struct's non-repeatable fields
+        open spec fn dec_stop(rest: Seq<u8>) -> bool { rest.len() == 0 || (match <zvt_builder::encoding::Default as zvt_builder::encoding::Encoding<zvt_builder::Tag>>::spec_dec(rest) { None => true, Some((t, _)) => true }) }
         /// the tag loop is specified by totality and frame clauses only
         open spec fn functional() -> bool { false }
         //@ fn exp:zvt | impl zvt_builder::encoding::Encoding<PrintSystemConfiguration> for zvt_builder::encoding::Default | encode | mod=packets props=C03
@@ -784,6 +857,10 @@
         //@ tag tags.bookkeeping C13
                     actual_tags@ =~= seen,
                     required_tags@ =~= Set::<u16>::empty().difference(seen),
+        //@ tag tags.stop C13
+                    curr_len == bytes@.len() ==> <zvt_builder::encoding::Default as zvt_builder::encoding::Encoding<PrintSystemConfiguration>>::dec_stop(bytes@),
+                ensures
+                    <zvt_builder::encoding::Default as zvt_builder::encoding::Encoding<PrintSystemConfiguration>>::dec_stop(bytes@),
         //@ tag tags.loop.decreases C02
                 decreases bytes@.len() + (if curr_len != bytes@.len() { 1nat } else { 0nat }),
         //@ entry
@@ -831,6 +908,9 @@
         open spec fn self_delimiting() -> bool { false }
         open spec fn dec_rel(b: Seq<u8>, v: &SetTerminalId, k: int) -> bool { true }
         open spec fn dec_total() -> bool { false }
+        /// the tag loop stops only at the end of the input, in front of something that is no tag, or in front of a tag that
+        /// is not one of this struct's non-repeatable fields
+        open spec fn dec_stop(rest: Seq<u8>) -> bool { rest.len() == 0 || (match <zvt_builder::encoding::Default as zvt_builder::encoding::Encoding<zvt_builder::Tag>>::spec_dec(rest) { None => true, Some((t, _)) => t.0 != 41u16 }) }
         /// the tag loop is specified by totality and frame clauses only
         open spec fn functional() -> bool { false }
         //@ fn exp:zvt | impl zvt_builder::encoding::Encoding<SetTerminalId> for zvt_builder::encoding::Default | encode | mod=packets props=C03
@@ -843,6 +923,10 @@
         //@ tag tags.bookkeeping C13
                     actual_tags@ =~= seen,
                     required_tags@ =~= Set::<u16>::empty().difference(seen),
+        //@ tag tags.stop C13
+                    curr_len == bytes@.len() ==> <zvt_builder::encoding::Default as zvt_builder::encoding::Encoding<SetTerminalId>>::dec_stop(bytes@),
+                ensures
+                    <zvt_builder::encoding::Default as zvt_builder::encoding::Encoding<SetTerminalId>>::dec_stop(bytes@),
         //@ tag tags.loop.decreases C02
                 decreases bytes@.len() + (if curr_len != bytes@.len() { 1nat } else { 0nat }),
         //@ entry
@@ -896,6 +980,9 @@
         open spec fn self_delimiting() -> bool { false }
         open spec fn dec_rel(b: Seq<u8>, v: &Abort, k: int) -> bool { true }
         open spec fn dec_total() -> bool { false }
+        /// the tag loop stops only at the end of the input, in front of something that is no tag, or in front of a tag that
+        /// is not one of this struct's non-repeatable fields
+        open spec fn dec_stop(rest: Seq<u8>) -> bool { rest.len() == 0 || (match <zvt_builder::encoding::Default as zvt_builder::encoding::Encoding<zvt_builder::Tag>>::spec_dec(rest) { None => true, Some((t, _)) => true }) }
         /// the tag loop is specified by totality and frame clauses only
         open spec fn functional() -> bool { false }
         //@ fn exp:zvt | impl zvt_builder::encoding::Encoding<Abort> for zvt_builder::encoding::Default | encode | mod=packets props=C03
@@ -908,6 +995,10 @@
         //@ tag tags.bookkeeping C13
                     actual_tags@ =~= seen,
                     required_tags@ =~= Set::<u16>::empty().difference(seen),
+        //@ tag tags.stop C13
+                    curr_len == bytes@.len() ==> <zvt_builder::encoding::Default as zvt_builder::encoding::Encoding<Abort>>::dec_stop(bytes@),
+                ensures
+                    <zvt_builder::encoding::Default as zvt_builder::encoding::Encoding<Abort>>::dec_stop(bytes@),
         //@ tag tags.loop.decreases C02
                 decreases bytes@.len() + (if curr_len != bytes@.len() { 1nat } else { 0nat }),
         //@ entry
@@ -955,6 +1046,9 @@
         open spec fn self_delimiting() -> bool { false }
         open spec fn dec_rel(b: Seq<u8>, v: &ReservationAbort, k: int) -> bool { true }
         open spec fn dec_total() -> bool { false }
+        /// the tag loop stops only at the end of the input, in front of something that is no tag, or in front of a tag that
+        /// is not one of this struct's non-repeatable fields
+        open spec fn dec_stop(rest: Seq<u8>) -> bool { rest.len() == 0 || (match <zvt_builder::encoding::Default as zvt_builder::encoding::Encoding<zvt_builder::Tag>>::spec_dec(rest) { None => true, Some((t, _)) => t.0 != 6u16 }) }
         /// the tag loop is specified by totality and frame clauses only
         open spec fn functional() -> bool { false }
         //@ fn exp:zvt | impl zvt_builder::encoding::Encoding<ReservationAbort> for zvt_builder::encoding::Default | encode | mod=packets props=C03
@@ -967,6 +1061,10 @@
         //@ tag tags.bookkeeping C13
                     actual_tags@ =~= seen,
                     required_tags@ =~= Set::<u16>::empty().difference(seen),
+        //@ tag tags.stop C13
+                    curr_len == bytes@.len() ==> <zvt_builder::encoding::Default as zvt_builder::encoding::Encoding<ReservationAbort>>::dec_stop(bytes@),
+                ensures
+                    <zvt_builder::encoding::Default as zvt_builder::encoding::Encoding<ReservationAbort>>::dec_stop(bytes@),
         //@ tag tags.loop.decreases C02
                 decreases bytes@.len() + (if curr_len != bytes@.len() { 1nat } else { 0nat }),
         //@ entry
@@ -1020,6 +1118,9 @@
         open spec fn self_delimiting() -> bool { false }
         open spec fn dec_rel(b: Seq<u8>, v: &PartialReversalAbort, k: int) -> bool { true }
         open spec fn dec_total() -> bool { false }
+        /// the tag loop stops only at the end of the input, in front of something that is no tag, or in front of a tag that
+        /// is not one of this struct's non-repeatable fields
+        open spec fn dec_stop(rest: Seq<u8>) -> bool { rest.len() == 0 || (match <zvt_builder::encoding::Default as zvt_builder::encoding::Encoding<zvt_builder::Tag>>::spec_dec(rest) { None => true, Some((t, _)) => t.0 != 135u16 }) }
         /// the tag loop is specified by totality and frame clauses only
         open spec fn functional() -> bool { false }
         //@ fn exp:zvt | impl zvt_builder::encoding::Encoding<PartialReversalAbort> for zvt_builder::encoding::Default | encode | mod=packets props=C03
@@ -1032,6 +1133,10 @@
         //@ tag tags.bookkeeping C13
                     actual_tags@ =~= seen,
                     required_tags@ =~= Set::<u16>::empty().difference(seen),
+        //@ tag tags.stop C13
+                    curr_len == bytes@.len() ==> <zvt_builder::encoding::Default as zvt_builder::encoding::Encoding<PartialReversalAbort>>::dec_stop(bytes@),
+                ensures
+                    <zvt_builder::encoding::Default as zvt_builder::encoding::Encoding<PartialReversalAbort>>::dec_stop(bytes@),
         //@ tag tags.loop.decreases C02
                 decreases bytes@.len() + (if curr_len != bytes@.len() { 1nat } else { 0nat }),
         //@ entry
@@ -1085,6 +1190,9 @@
         open spec fn self_delimiting() -> bool { false }
         open spec fn dec_rel(b: Seq<u8>, v: &Authorization, k: int) -> bool { true }
         open spec fn dec_total() -> bool { false }
+        /// the tag loop stops only at the end of the input, in front of something that is no tag, or in front of a tag that
+        /// is not one of this struct's non-repeatable fields
+        open spec fn dec_stop(rest: Seq<u8>) -> bool { rest.len() == 0 || (match <zvt_builder::encoding::Default as zvt_builder::encoding::Encoding<zvt_builder::Tag>>::spec_dec(rest) { None => true, Some((t, _)) => t.0 != 4u16 && t.0 != 73u16 && t.0 != 25u16 && t.0 != 14u16 && t.0 != 34u16 && t.0 != 35u16 && t.0 != 1u16 && t.0 != 2u16 && t.0 != 5u16 && t.0 != 60u16 && t.0 != 138u16 && t.0 != 6u16 }) }
         /// the tag loop is specified by totality and frame clauses only
         open spec fn functional() -> bool { false }
         //@ fn exp:zvt | impl zvt_builder::encoding::Encoding<Authorization> for zvt_builder::encoding::Default | encode | mod=packets props=C03
@@ -1097,6 +1205,10 @@
         //@ tag tags.bookkeeping C13
                     actual_tags@ =~= seen,
                     required_tags@ =~= Set::<u16>::empty().difference(seen),
+        //@ tag tags.stop C13
+                    curr_len == bytes@.len() ==> <zvt_builder::encoding::Default as zvt_builder::encoding::Encoding<Authorization>>::dec_stop(bytes@),
+                ensures
+                    <zvt_builder::encoding::Default as zvt_builder::encoding::Encoding<Authorization>>::dec_stop(bytes@),
         //@ tag tags.loop.decreases C02
                 decreases bytes@.len() + (if curr_len != bytes@.len() { 1nat } else { 0nat }),
         //@ entry
@@ -1216,6 +1328,9 @@
         open spec fn self_delimiting() -> bool { false }
         open spec fn dec_rel(b: Seq<u8>, v: &Reservation, k: int) -> bool { true }
         open spec fn dec_total() -> bool { false }
+        /// the tag loop stops only at the end of the input, in front of something that is no tag, or in front of a tag that
+        /// is not one of this struct's non-repeatable fields
+        open spec fn dec_stop(rest: Seq<u8>) -> bool { rest.len() == 0 || (match <zvt_builder::encoding::Default as zvt_builder::encoding::Encoding<zvt_builder::Tag>>::spec_dec(rest) { None => true, Some((t, _)) => t.0 != 4u16 && t.0 != 73u16 && t.0 != 25u16 && t.0 != 14u16 && t.0 != 34u16 && t.0 != 35u16 && t.0 != 1u16 && t.0 != 2u16 && t.0 != 5u16 && t.0 != 11u16 && t.0 != 59u16 && t.0 != 60u16 && t.0 != 138u16 && t.0 != 6u16 }) }
         /// the tag loop is specified by totality and frame clauses only
         open spec fn functional() -> bool { false }
         //@ fn exp:zvt | impl zvt_builder::encoding::Encoding<Reservation> for zvt_builder::encoding::Default | encode | mod=packets props=C03
@@ -1228,6 +1343,10 @@
         //@ tag tags.bookkeeping C13
                     actual_tags@ =~= seen,
                     required_tags@ =~= Set::<u16>::empty().difference(seen),
+        //@ tag tags.stop C13
+                    curr_len == bytes@.len() ==> <zvt_builder::encoding::Default as zvt_builder::encoding::Encoding<Reservation>>::dec_stop(bytes@),
+                ensures
+                    <zvt_builder::encoding::Default as zvt_builder::encoding::Encoding<Reservation>>::dec_stop(bytes@),
         //@ tag tags.loop.decreases C02
                 decreases bytes@.len() + (if curr_len != bytes@.len() { 1nat } else { 0nat }),
         //@ entry
@@ -1359,6 +1478,9 @@
         open spec fn self_delimiting() -> bool { false }
         open spec fn dec_rel(b: Seq<u8>, v: &PartialReversal, k: int) -> bool { true }
         open spec fn dec_total() -> bool { false }
+        /// the tag loop stops only at the end of the input, in front of something that is no tag, or in front of a tag that
+        /// is not one of this struct's non-repeatable fields
+        open spec fn dec_stop(rest: Seq<u8>) -> bool { rest.len() == 0 || (match <zvt_builder::encoding::Default as zvt_builder::encoding::Encoding<zvt_builder::Tag>>::spec_dec(rest) { None => true, Some((t, _)) => t.0 != 135u16 && t.0 != 4u16 && t.0 != 25u16 && t.0 != 73u16 && t.0 != 6u16 }) }
         /// the tag loop is specified by totality and frame clauses only
         open spec fn functional() -> bool { false }
         //@ fn exp:zvt | impl zvt_builder::encoding::Encoding<PartialReversal> for zvt_builder::encoding::Default | encode | mod=packets props=C03
@@ -1371,6 +1493,10 @@
         //@ tag tags.bookkeeping C13
                     actual_tags@ =~= seen,
                     required_tags@ =~= Set::<u16>::empty().difference(seen),
+        //@ tag tags.stop C13
+                    curr_len == bytes@.len() ==> <zvt_builder::encoding::Default as zvt_builder::encoding::Encoding<PartialReversal>>::dec_stop(bytes@),
+                ensures
+                    <zvt_builder::encoding::Default as zvt_builder::encoding::Encoding<PartialReversal>>::dec_stop(bytes@),
         //@ tag tags.loop.decreases C02
                 decreases bytes@.len() + (if curr_len != bytes@.len() { 1nat } else { 0nat }),
         //@ entry
@@ -1448,6 +1574,9 @@
         open spec fn self_delimiting() -> bool { false }
         open spec fn dec_rel(b: Seq<u8>, v: &PreAuthReversal, k: int) -> bool { true }
         open spec fn dec_total() -> bool { false }
+        /// the tag loop stops only at the end of the input, in front of something that is no tag, or in front of a tag that
+        /// is not one of this struct's non-repeatable fields
+        open spec fn dec_stop(rest: Seq<u8>) -> bool { rest.len() == 0 || (match <zvt_builder::encoding::Default as zvt_builder::encoding::Encoding<zvt_builder::Tag>>::spec_dec(rest) { None => true, Some((t, _)) => t.0 != 25u16 && t.0 != 73u16 && t.0 != 135u16 }) }
         /// the tag loop is specified by totality and frame clauses only
         open spec fn functional() -> bool { false }
         //@ fn exp:zvt | impl zvt_builder::encoding::Encoding<PreAuthReversal> for zvt_builder::encoding::Default | encode | mod=packets props=C03
@@ -1460,6 +1589,10 @@
         //@ tag tags.bookkeeping C13
                     actual_tags@ =~= seen,
                     required_tags@ =~= Set::<u16>::empty().difference(seen),
+        //@ tag tags.stop C13
+                    curr_len == bytes@.len() ==> <zvt_builder::encoding::Default as zvt_builder::encoding::Encoding<PreAuthReversal>>::dec_stop(bytes@),
+                ensures
+                    <zvt_builder::encoding::Default as zvt_builder::encoding::Encoding<PreAuthReversal>>::dec_stop(bytes@),
         //@ tag tags.loop.decreases C02
                 decreases bytes@.len() + (if curr_len != bytes@.len() { 1nat } else { 0nat }),
         //@ entry
@@ -1525,6 +1658,9 @@
         open spec fn self_delimiting() -> bool { false }
         open spec fn dec_rel(b: Seq<u8>, v: &EndOfDay, k: int) -> bool { true }
         open spec fn dec_total() -> bool { false }
+        /// the tag loop stops only at the end of the input, in front of something that is no tag, or in front of a tag that
+        /// is not one of this struct's non-repeatable fields
+        open spec fn dec_stop(rest: Seq<u8>) -> bool { rest.len() == 0 || (match <zvt_builder::encoding::Default as zvt_builder::encoding::Encoding<zvt_builder::Tag>>::spec_dec(rest) { None => true, Some((t, _)) => true }) }
         /// the tag loop is specified by totality and frame clauses only
         open spec fn functional() -> bool { false }
         //@ fn exp:zvt | impl zvt_builder::encoding::Encoding<EndOfDay> for zvt_builder::encoding::Default | encode | mod=packets props=C03
@@ -1537,6 +1673,10 @@
         //@ tag tags.bookkeeping C13
                     actual_tags@ =~= seen,
                     required_tags@ =~= Set::<u16>::empty().difference(seen),
+        //@ tag tags.stop C13
+                    curr_len == bytes@.len() ==> <zvt_builder::encoding::Default as zvt_builder::encoding::Encoding<EndOfDay>>::dec_stop(bytes@),
+                ensures
+                    <zvt_builder::encoding::Default as zvt_builder::encoding::Encoding<EndOfDay>>::dec_stop(bytes@),
         //@ tag tags.loop.decreases C02
                 decreases bytes@.len() + (if curr_len != bytes@.len() { 1nat } else { 0nat }),
         //@ entry
@@ -1584,6 +1724,9 @@
         open spec fn self_delimiting() -> bool { false }
         open spec fn dec_rel(b: Seq<u8>, v: &Diagnosis, k: int) -> bool { true }
         open spec fn dec_total() -> bool { false }
+        /// the tag loop stops only at the end of the input, in front of something that is no tag, or in front of a tag that
+        /// is not one of this struct's non-repeatable fields
+        open spec fn dec_stop(rest: Seq<u8>) -> bool { rest.len() == 0 || (match <zvt_builder::encoding::Default as zvt_builder::encoding::Encoding<zvt_builder::Tag>>::spec_dec(rest) { None => true, Some((t, _)) => t.0 != 6u16 }) }
         /// the tag loop is specified by totality and frame clauses only
         open spec fn functional() -> bool { false }
         //@ fn exp:zvt | impl zvt_builder::encoding::Encoding<Diagnosis> for zvt_builder::encoding::Default | encode | mod=packets props=C03
@@ -1596,6 +1739,10 @@
         //@ tag tags.bookkeeping C13
                     actual_tags@ =~= seen,
                     required_tags@ =~= Set::<u16>::empty().difference(seen),
+        //@ tag tags.stop C13
+                    curr_len == bytes@.len() ==> <zvt_builder::encoding::Default as zvt_builder::encoding::Encoding<Diagnosis>>::dec_stop(bytes@),
+                ensures
+                    <zvt_builder::encoding::Default as zvt_builder::encoding::Encoding<Diagnosis>>::dec_stop(bytes@),
         //@ tag tags.loop.decreases C02
                 decreases bytes@.len() + (if curr_len != bytes@.len() { 1nat } else { 0nat }),
         //@ entry
@@ -1649,6 +1796,9 @@
         open spec fn self_delimiting() -> bool { false }
         open spec fn dec_rel(b: Seq<u8>, v: &Initialization, k: int) -> bool { true }
         open spec fn dec_total() -> bool { false }
+        /// the tag loop stops only at the end of the input, in front of something that is no tag, or in front of a tag that
+        /// is not one of this struct's non-repeatable fields
+        open spec fn dec_stop(rest: Seq<u8>) -> bool { rest.len() == 0 || (match <zvt_builder::encoding::Default as zvt_builder::encoding::Encoding<zvt_builder::Tag>>::spec_dec(rest) { None => true, Some((t, _)) => true }) }
         /// the tag loop is specified by totality and frame clauses only
         open spec fn functional() -> bool { false }
         //@ fn exp:zvt | impl zvt_builder::encoding::Encoding<Initialization> for zvt_builder::encoding::Default | encode | mod=packets props=C03
@@ -1661,6 +1811,10 @@
         //@ tag tags.bookkeeping C13
                     actual_tags@ =~= seen,
                     required_tags@ =~= Set::<u16>::empty().difference(seen),
+        //@ tag tags.stop C13
+                    curr_len == bytes@.len() ==> <zvt_builder::encoding::Default as zvt_builder::encoding::Encoding<Initialization>>::dec_stop(bytes@),
+                ensures
+                    <zvt_builder::encoding::Default as zvt_builder::encoding::Encoding<Initialization>>::dec_stop(bytes@),
         //@ tag tags.loop.decreases C02
                 decreases bytes@.len() + (if curr_len != bytes@.len() { 1nat } else { 0nat }),
         //@ entry
@@ -1708,6 +1862,9 @@
         open spec fn self_delimiting() -> bool { false }
         open spec fn dec_rel(b: Seq<u8>, v: &ReadCard, k: int) -> bool { true }
         open spec fn dec_total() -> bool { false }
+        /// the tag loop stops only at the end of the input, in front of something that is no tag, or in front of a tag that
+        /// is not one of this struct's non-repeatable fields
+        open spec fn dec_stop(rest: Seq<u8>) -> bool { rest.len() == 0 || (match <zvt_builder::encoding::Default as zvt_builder::encoding::Encoding<zvt_builder::Tag>>::spec_dec(rest) { None => true, Some((t, _)) => t.0 != 25u16 && t.0 != 252u16 && t.0 != 6u16 }) }
         /// the tag loop is specified by totality and frame clauses only
         open spec fn functional() -> bool { false }
         //@ fn exp:zvt | impl zvt_builder::encoding::Encoding<ReadCard> for zvt_builder::encoding::Default | encode | mod=packets props=C03
@@ -1720,6 +1877,10 @@
         //@ tag tags.bookkeeping C13
                     actual_tags@ =~= seen,
                     required_tags@ =~= Set::<u16>::empty().difference(seen),
+        //@ tag tags.stop C13
+                    curr_len == bytes@.len() ==> <zvt_builder::encoding::Default as zvt_builder::encoding::Encoding<ReadCard>>::dec_stop(bytes@),
+                ensures
+                    <zvt_builder::encoding::Default as zvt_builder::encoding::Encoding<ReadCard>>::dec_stop(bytes@),
         //@ tag tags.loop.decreases C02
                 decreases bytes@.len() + (if curr_len != bytes@.len() { 1nat } else { 0nat }),
         //@ entry
@@ -1785,6 +1946,9 @@
         open spec fn self_delimiting() -> bool { false }
         open spec fn dec_rel(b: Seq<u8>, v: &PrintLine, k: int) -> bool { true }
         open spec fn dec_total() -> bool { false }
+        /// the tag loop stops only at the end of the input, in front of something that is no tag, or in front of a tag that
+        /// is not one of this struct's non-repeatable fields
+        open spec fn dec_stop(rest: Seq<u8>) -> bool { rest.len() == 0 || (match <zvt_builder::encoding::Default as zvt_builder::encoding::Encoding<zvt_builder::Tag>>::spec_dec(rest) { None => true, Some((t, _)) => true }) }
         /// the tag loop is specified by totality and frame clauses only
         open spec fn functional() -> bool { false }
         //@ fn exp:zvt | impl zvt_builder::encoding::Encoding<PrintLine> for zvt_builder::encoding::Default | encode | mod=packets props=C03
@@ -1797,6 +1961,10 @@
         //@ tag tags.bookkeeping C13
                     actual_tags@ =~= seen,
                     required_tags@ =~= Set::<u16>::empty().difference(seen),
+        //@ tag tags.stop C13
+                    curr_len == bytes@.len() ==> <zvt_builder::encoding::Default as zvt_builder::encoding::Encoding<PrintLine>>::dec_stop(bytes@),
+                ensures
+                    <zvt_builder::encoding::Default as zvt_builder::encoding::Encoding<PrintLine>>::dec_stop(bytes@),
         //@ tag tags.loop.decreases C02
                 decreases bytes@.len() + (if curr_len != bytes@.len() { 1nat } else { 0nat }),
         //@ entry
@@ -1844,6 +2012,9 @@
         open spec fn self_delimiting() -> bool { false }
         open spec fn dec_rel(b: Seq<u8>, v: &PrintTextBlock, k: int) -> bool { true }
         open spec fn dec_total() -> bool { false }
+        /// the tag loop stops only at the end of the input, in front of something that is no tag, or in front of a tag that
+        /// is not one of this struct's non-repeatable fields
+        open spec fn dec_stop(rest: Seq<u8>) -> bool { rest.len() == 0 || (match <zvt_builder::encoding::Default as zvt_builder::encoding::Encoding<zvt_builder::Tag>>::spec_dec(rest) { None => true, Some((t, _)) => t.0 != 6u16 }) }
         /// the tag loop is specified by totality and frame clauses only
         open spec fn functional() -> bool { false }
         //@ fn exp:zvt | impl zvt_builder::encoding::Encoding<PrintTextBlock> for zvt_builder::encoding::Default | encode | mod=packets props=C03
@@ -1856,6 +2027,10 @@
         //@ tag tags.bookkeeping C13
                     actual_tags@ =~= seen,
                     required_tags@ =~= Set::<u16>::empty().difference(seen),
+        //@ tag tags.stop C13
+                    curr_len == bytes@.len() ==> <zvt_builder::encoding::Default as zvt_builder::encoding::Encoding<PrintTextBlock>>::dec_stop(bytes@),
+                ensures
+                    <zvt_builder::encoding::Default as zvt_builder::encoding::Encoding<PrintTextBlock>>::dec_stop(bytes@),
         //@ tag tags.loop.decreases C02
                 decreases bytes@.len() + (if curr_len != bytes@.len() { 1nat } else { 0nat }),
         //@ entry
@@ -1909,6 +2084,9 @@
         open spec fn self_delimiting() -> bool { false }
         open spec fn dec_rel(b: Seq<u8>, v: &SelectLanguage, k: int) -> bool { true }
         open spec fn dec_total() -> bool { false }
+        /// the tag loop stops only at the end of the input, in front of something that is no tag, or in front of a tag that
+        /// is not one of this struct's non-repeatable fields
+        open spec fn dec_stop(rest: Seq<u8>) -> bool { rest.len() == 0 || (match <zvt_builder::encoding::Default as zvt_builder::encoding::Encoding<zvt_builder::Tag>>::spec_dec(rest) { None => true, Some((t, _)) => true }) }
         /// the tag loop is specified by totality and frame clauses only
         open spec fn functional() -> bool { false }
         //@ fn exp:zvt | impl zvt_builder::encoding::Encoding<SelectLanguage> for zvt_builder::encoding::Default | encode | mod=packets props=C03
@@ -1921,6 +2099,10 @@
         //@ tag tags.bookkeeping C13
                     actual_tags@ =~= seen,
                     required_tags@ =~= Set::<u16>::empty().difference(seen),
+        //@ tag tags.stop C13
+                    curr_len == bytes@.len() ==> <zvt_builder::encoding::Default as zvt_builder::encoding::Encoding<SelectLanguage>>::dec_stop(bytes@),
+                ensures
+                    <zvt_builder::encoding::Default as zvt_builder::encoding::Encoding<SelectLanguage>>::dec_stop(bytes@),
         //@ tag tags.loop.decreases C02
                 decreases bytes@.len() + (if curr_len != bytes@.len() { 1nat } else { 0nat }),
         //@ entry
@@ -1968,6 +2150,9 @@
         open spec fn self_delimiting() -> bool { false }
         open spec fn dec_rel(b: Seq<u8>, v: &Ack, k: int) -> bool { true }
         open spec fn dec_total() -> bool { false }
+        /// the tag loop stops only at the end of the input, in front of something that is no tag, or in front of a tag that
+        /// is not one of this struct's non-repeatable fields
+        open spec fn dec_stop(rest: Seq<u8>) -> bool { rest.len() == 0 || (match <zvt_builder::encoding::Default as zvt_builder::encoding::Encoding<zvt_builder::Tag>>::spec_dec(rest) { None => true, Some((t, _)) => true }) }
         /// the tag loop is specified by totality and frame clauses only
         open spec fn functional() -> bool { false }
         //@ fn exp:zvt | impl zvt_builder::encoding::Encoding<Ack> for zvt_builder::encoding::Default | encode | mod=packets props=C03
@@ -1980,6 +2165,10 @@
         //@ tag tags.bookkeeping C13
                     actual_tags@ =~= seen,
                     required_tags@ =~= Set::<u16>::empty().difference(seen),
+        //@ tag tags.stop C13
+                    curr_len == bytes@.len() ==> <zvt_builder::encoding::Default as zvt_builder::encoding::Encoding<Ack>>::dec_stop(bytes@),
+                ensures
+                    <zvt_builder::encoding::Default as zvt_builder::encoding::Encoding<Ack>>::dec_stop(bytes@),
         //@ tag tags.loop.decreases C02
                 decreases bytes@.len() + (if curr_len != bytes@.len() { 1nat } else { 0nat }),
         //@ entry
